@@ -47,5 +47,13 @@ def mk_table(e, n, opts, cell_lo=0, cell_hi=40):
 
 
 def structural_min(t, n):
-    """borders/padding plus one cell per column (the property's structural minimum for the column-width budget)."""
-    return sum(1 + t._get_padding_width(i) for i in range(n))
+    """borders/padding plus one cell per column (the property's structural minimum for the column-width budget);
+    a column with an explicit min_width cannot be narrower than that, so it counts with its min_width."""
+    total = 0
+    for i in range(n):
+        need = 1
+        cm = t.columns[i].min_width
+        if cm is not None:
+            need = max(need, cm)
+        total = total + need + t._get_padding_width(i)
+    return total
